@@ -387,6 +387,81 @@ pub fn pkenc() -> i32 {
     0
 }
 
+// ------------------------------------------- verifier public-input rows -----
+
+/// The trailing public-input index list of a verifier encoding (8 big-endian bytes per
+/// index, count in the header at 24..32) under reordering, duplication, extension and
+/// bit flips: decoding must return a value or an error -- never panic -- and an accepted
+/// verifier must be usable.
+pub fn piindex() -> i32 {
+    let pp = setup(32);
+    let program = allsel_program(5, 2, 3);
+    let obj = match compile(&pp, b"codec-pi", &program) {
+        Ok(o) => o,
+        Err(e) => {
+            println!("{}", json!({"fatal": e}));
+            return 2;
+        }
+    };
+    let vb = obj.verifier.to_bytes();
+    let n_pi = u64::from_be_bytes(vb[24..32].try_into().unwrap()) as usize;
+    if n_pi != 3 || vb.len() < 48 + 8 * n_pi {
+        println!("{}", json!({"fatal": format!("base verifier has {n_pi} public inputs")}));
+        return 2;
+    }
+    let (_, pr, _) = prove_bytes(&obj.prover, &program, 7, PlonkVersion::V3);
+    let (proof, pis) = match pr {
+        Some(x) => x,
+        None => {
+            println!("{}", json!({"fatal": "base circuit does not prove"}));
+            return 2;
+        }
+    };
+    let at = vb.len() - 8 * n_pi;
+    let field = |b: &[u8], i: usize| -> Vec<u8> { b[at + 8 * i..at + 8 * i + 8].to_vec() };
+    let mut cases: Vec<(String, Vec<u8>)> = vec![("unchanged".into(), vb.clone())];
+    for (i, j) in [(0usize, 1usize), (1, 2), (0, 2)] {
+        let mut b = vb.clone();
+        let (x, y) = (field(&vb, i), field(&vb, j));
+        b[at + 8 * i..at + 8 * i + 8].copy_from_slice(&y);
+        b[at + 8 * j..at + 8 * j + 8].copy_from_slice(&x);
+        cases.push((format!("swap-{i}-{j}"), b));
+        let mut b = vb.clone();
+        b[at + 8 * j..at + 8 * j + 8].copy_from_slice(&x);
+        cases.push((format!("duplicate-{i}-into-{j}"), b));
+    }
+    let mut rev = vb.clone();
+    for i in 0..n_pi {
+        rev[at + 8 * i..at + 8 * i + 8].copy_from_slice(&field(&vb, n_pi - 1 - i));
+    }
+    cases.push(("reversed".into(), rev));
+    // count raised by one, a smaller / equal / huge index appended
+    for (name, idx) in [("append-zero", 0u64), ("append-first", u64::from_be_bytes(field(&vb, 0).try_into().unwrap())),
+                        ("append-huge", u64::MAX)] {
+        let mut b = vb.clone();
+        b[24..32].copy_from_slice(&((n_pi + 1) as u64).to_be_bytes());
+        b.extend_from_slice(&idx.to_be_bytes());
+        cases.push((name.into(), b));
+    }
+    for k in 0..(8 * n_pi) {
+        for bit in 0..8 {
+            let mut b = vb.clone();
+            b[at + k] ^= 1 << bit;
+            cases.push((format!("flip-{k}.{bit}"), b));
+        }
+    }
+    for (name, bytes) in cases {
+        let d = guarded(|| Verifier::try_from_bytes(&bytes));
+        let mut out = json!({"m": "pi-index", "id": name, "res": outcome_dbg(&d)});
+        if let Ok(Ok(v)) = &d {
+            out["smoke_verify"] = json!(verify_bytes(v, &proof, &pis, PlonkVersion::V3));
+            out["reenc"] = json!(match guarded(|| v.to_bytes()) { Ok(b2) => (b2 == bytes).to_string(), Err(p) => format!("panic:{p}") });
+        }
+        println!("{}", out);
+    }
+    0
+}
+
 // ------------------------------------------------ hostile compressed -----
 
 fn deflate(b: &[u8]) -> Vec<u8> {
@@ -435,6 +510,21 @@ pub fn hostile(tier: &str) -> i32 {
         let mut b = good.clone();
         b[bit / 8] ^= 1 << (bit % 8);
         cases.push((format!("flip-{bit}"), b));
+    }
+    // the public-input index vector (second item of the description, a fixarray in this
+    // circuit) re-packed with an array-32 header that declares 65536 MORE entries than it
+    // carries: the entries are not there, the description must be refused
+    if packed.len() > 2 && (0x90..=0x9f).contains(&packed[1]) {
+        let n = packed[1] & 0x0f;
+        let mut p = packed[..1].to_vec();
+        p.extend_from_slice(&[0xdd, 0x00, 0x01, 0x00, n]);
+        p.extend_from_slice(&packed[2..]);
+        cases.push(("declared-plus-65536".into(), deflate(&p)));
+        // and the honest non-minimal form of the same count, which is the same description
+        let mut p = packed[..1].to_vec();
+        p.extend_from_slice(&[0xdd, 0x00, 0x00, 0x00, n]);
+        p.extend_from_slice(&packed[2..]);
+        cases.push(("declared-array32-exact".into(), deflate(&p)));
     }
     // re-packed payloads: array headers replaced by huge declared counts
     for (i, byte) in packed.iter().enumerate() {
